@@ -435,15 +435,28 @@ def bundle_measure_obligation(ctx, u, rule):
         for h_ in u.functions.get(A.callee_name(c_) or "", []):
             if u.body(h_) is not None and h_.get("storageClass") == "static" and h_ not in hosts:
                 hosts.append(h_)
-    for c in (x for h_ in hosts for x in A.calls_in(u.body(h_), "rtosc_message_length")):
+    def origin(a0, host, depth=0):
+        """what is measured: "va_arg" for the next variadic element - directly, through a local initialised from it, or
+        through the parameter of a file-local helper whose every call in rtosc_bundle passes one"""
+        a0 = A.strip_casts(a0)
+        if a0.get("kind") == "VAArgExpr":
+            return "va_arg"
+        if a0.get("kind") != "DeclRefExpr":
+            return A.src(a0)
+        dd = u.by_id.get(a0["referencedDecl"]["id"])
+        if dd is not None and dd.get("kind") == "VarDecl" and A.kids(dd) and A.strip_casts(A.kids(dd)[-1]).get("kind") == "VAArgExpr":
+            return "va_arg"
+        if dd is not None and dd.get("kind") == "ParmVarDecl" and host is not fnb and depth < 2:
+            ids_ = [p_["id"] for p_ in u.params(host)]
+            if dd["id"] in ids_:
+                k_ = ids_.index(dd["id"])
+                srcs = {origin(A.kids(c_)[1 + k_], fnb, depth + 1) for c_ in A.calls_in(u.body(fnb), host.get("name")) if len(A.kids(c_)) > 1 + k_}
+                if len(srcs) == 1:
+                    return srcs.pop()
+        return "var"
+    for h_, c in ((h_, x) for h_ in hosts for x in A.calls_in(u.body(h_), "rtosc_message_length")):
         a = A.kids(c)[1:]
-        a0 = A.strip_casts(a[0])
-        src0 = "va_arg" if a0.get("kind") == "VAArgExpr" else ("var" if a0.get("kind") == "DeclRefExpr" else A.src(a0))
-        # a variable initialised from va_arg counts as va_arg
-        if a0.get("kind") == "DeclRefExpr":
-            dd = u.by_id.get(a0["referencedDecl"]["id"])
-            if dd is not None and A.kids(dd) and A.strip_casts(A.kids(dd)[-1]).get("kind") == "VAArgExpr":
-                src0 = "va_arg"
+        src0 = origin(a[0], h_)
         try:
             lim = FD.Eval().ev(a[1])
         except FD.Unknown:
